@@ -10,8 +10,14 @@ Sections (the ``kind`` of a work item):
 ``uri``       TargetURI.from_parts -> str -> TargetURI -> scheme/hostname/port/qs_flat/location,
               then <Transport>Config(**qs_flat) must accept it with the same numeric settings
 ``hsfz``      the real ``HSFZDiscoverer.probe`` coroutine (fake HSFZ connection answering the probe)
-``isotp``     the URI construction block of ``IsotpDiscoverer.main`` - cut out of the *current*
-              source by AST and executed with boundary arguments
+``scan-*``    the discovery scanners' own emission code run for real: ``IsotpDiscoverer.main`` (fake CAN bus,
+              every probed id / extended address answers), ``HSFZDiscoverer.main`` (fake HSFZ ECUs),
+              ``DoIPDiscoverer.enumerate_routing_activation_requests`` / ``enumerate_target_addresses`` (fake
+              gateway); every URI written to ECUs.txt / the artifact files / the database must parse back through
+              the transport's config class to exactly the address that answered, and is then connected
+``wire``      real ``<Transport>.connect(uri)`` with a fake socket / connection: the socket options, bind
+              address and connection arguments must carry the URI's numeric settings (flag set iff present)
+``notation``  a digit string without prefix is decimal; bare hex digits ('f1') are no integer anywhere
 ``doip``      every ``f"doip://..."`` expression of commands/discover/doip.py - cut out by AST
 ``r1``        utils.unravel and the ``Ranges`` pydantic type (str / list[str] input)
 ``r2``        utils.unravel_2d and the ``Ranges2D`` pydantic type (str / list[str] input)
@@ -50,8 +56,19 @@ RULE = (
     "(required-only/all-present, extreme values, uniform + one mixed spelling) and the full map sets x 4 "
     "representative (host, port) (ISO-TP: 2); thorough: full map sets x all hosts x ports (ISO-TP: all hosts, "
     "no port) plus a larger ISO-TP set (3 values per field, 2 all-present vectors) x 2 representatives. "
+    "scanners (real main()/enumerate_* code, fake bus/gateway): ISO-TP extended addressing - all 256 address "
+    "bytes x 8 tester addresses (low byte 00/f1/ff/digits-only/leading-zero/mixed, 11 and 29 bit) x padding "
+    "{None,0,0xaa} x fd x 29-bit; normal addressing - id windows at both ends of the 11 and 29 bit spaces; HSFZ - "
+    "all 256 destination addresses x 6 (quick) / all (thorough) hosts x ports x 3 source addresses; DoIP - "
+    "target address windows (thorough: all 65536) x (type, source) pairs x protocol versions x hosts x ports; "
+    "every emitted URI is parsed back, compared with the endpoint that answered and connected. wire: ISO-TP every "
+    "byte value + absent of ext_address/rx_ext_address/tx_padding/rx_padding (others absent / present) and the "
+    "product {absent,0,1,0xff}^4 x frame_txtime {absent,0,2^32-1} x tx_dl x fd x 29-bit, decoded from the "
+    "recorded setsockopt/bind calls; can-raw bind/FD option; DoIP/HSFZ connect arguments over boundary values "
+    "and hosts. notation: 13 prefix-less / malformed hex texts must be rejected and 6 digit strings must be "
+    "decimal in auto_int, AutoInt, unravel, Ranges, unravel_2d and every int field of every config model. "
     "host:port: all hosts x ports x default_port {None,0,13400} (+ every port 0..65535 for 1 (quick) / 4 "
-    "(thorough) hosts). builders: real HSFZDiscoverer.probe coroutine, AST-extracted ISO-TP block and "
+    "(thorough) hosts). builders: real HSFZDiscoverer.probe coroutine and AST-extracted "
     "doip:// f-strings with boundary addresses/ports/timeouts (hsfz ack_timeout: 20 floats incl. values whose product with 1000 falls "
     "just below/above a whole number and non-ms values, plus every k/1000 s for k=0..5000). Ranges: numerals "
     "{0,1,7,0x10,0o7,0b11,255,0xffff}; token = numeral or a-b (72 tokens, 7 of them 'wide' = more than 4096 "
@@ -79,8 +96,14 @@ ASSUMPTIONS = [
     "partial doip:// URLs (no target_addr/src_addr) are completed with 0 for the transport-acceptance step",
     "HSFZ probe: the emitted ack_timeout must be the whole number of milliseconds nearest to the float passed "
     "(computed exactly with fractions; no half-way values are enumerated)",
-    "the ISO-TP URI block and the doip:// f-strings are cut out of the current source by AST; if they "
-    "cannot be located they are listed under 'uncovered'",
+    "the doip:// f-strings are additionally cut out of the current source by AST (covers the UDP discovery "
+    "string that needs real sockets); if they cannot be located they are listed under 'uncovered'",
+    "scanner runs: the probe loops run unmodified; the seams are RawCANTransport / HSFZConnection / "
+    "DoIPConnection in the scanner modules, artifacts_dir, db_handler, and asyncio.sleep in discover/doip.py "
+    "(yields only); wire runs: the socket module inside transports/isotp.py and transports/can.py and the "
+    "DoIPConnection / HSFZConnection names inside the transport modules; the expected socket layout is the Linux "
+    "SocketCAN ABI (struct can_isotp_options, can_isotp_ll_options, bind(iface, rx_id, tx_id)) written in "
+    "vf/ref/c20_model.py; CAN ids above 0x7ff are only used together with is_extended=true",
     "pydantic, urllib and ipaddress are trusted",
 ]
 CHUNK = 2
@@ -1456,6 +1479,8 @@ def check_notation(res: Result, entry: str, text: str, value: int | None) -> Non
     ok, out = call(_notation_targets()[entry], text)
     if value is None:
         if ok:
+            if call(G["auto_int"], text)[0]:
+                entry = "auto_int"  # the shared helper accepts it: one root cause, one signature
             res.violate(f"C20|{entry}|bare-hex-accepted", f"{entry}: {text!r} is no decimal/0x/0o/0b numeral but is accepted as {out!r}", rd)
     elif not ok:
         res.violate(f"C20|{entry}|decimal-rejected", f"{entry}: {text!r} raised {_exc(out)}, expected {value}", rd)
